@@ -61,11 +61,13 @@ def charrefs():
           ('&#35;', '#'), ('&#1234;', '\u04d2'), ('&#992;', '\u03e0'), ('&#0;', '\ufffd'), ('&#9;', '\t'), ('&#65;', 'A'), ('&#0000065;', 'A'),
           ('&#X22;', '&quot;'), ('&#XD06;', '\u0d06'), ('&#xcab;', '\u0cab'), ('&#x41;', 'A'), ('&#x000041;', 'A'), ('&#xD800;', '\ufffd'),
           ('&#1114112;', '\ufffd'), ('&#x10FFFF;', '\U0010ffff'), ('&#60;', '&lt;'), ('&#38;', '&amp;'),
-          ('&#128;', '\x80'), ('&#1;', '\x01'), ('&#xFFFE;', '\ufffe'), ('&#x7f;', '\x7f')]
+          ('&#128;', '\x80'), ('&#1;', '\x01'), ('&#xFFFE;', '\ufffe'), ('&#x7f;', '\x7f'),
+          ('&#xDFFF;', '\ufffd'), ('&#xDFFE;', '\ufffd'), ('&#xD7FF;', '\ud7ff'), ('&#xE000;', '\ue000'), ('&#57343;', '\ufffd'), ('&#1114111;', '\U0010ffff'),
+          ('&#x123456;', '\ufffd'), ('&#1234567;', '\ufffd')]
     for md, want in ok:
         yield ('charref', md, want, dict(ref=md))
     for md in ('&nbsp', '&x;', '&#87654321;', '&#abcdef0;', '&ThisIsNotDefined;', '&hi?;', '&#;', '&#x;', '&#x1234567;', '&;', '& amp;', '&amp ;',
-               '&#12a;', '&#xg;', '&copy', '&#', '&'):
+               '&#12a;', '&#xg;', '&copy', '&#', '&', '&#x0000041;', '&#00000065;', '&#x1234567;'):
         yield ('charref-not', md, esc(md), dict(text=md))
 
 
@@ -102,7 +104,10 @@ def links():
     texts = [('t', 't', 't'), ('t *e*', 't <em>e</em>', 't e'), ('`c`', '<code>c</code>', 'c'), ('a [b] c', 'a [b] c', 'a [b] c'), ('a \\] c', 'a ] c', 'a ] c'),
              ('', '', ''), ('a <b>x</b> c', 'a <b>x</b> c', 'a <b>x</b> c'), ('<!-- k -->', '<!-- k -->', '<!-- k -->')]
     dests = [('/u', '/u'), ('</u v>', '/u%20v'), ('<>', ''), ('', ''), ('/u(a)b', '/u(a)b'), ('/u\\(a', '/u(a'), ('<a(b>', 'a(b'),
-             ('http://x.y/?q=1#f', 'http://x.y/?q=1#f'), ('/a&amp;b', '/a&amp;b'), ('#frag', '#frag'), ('<a\\>b>', 'a%3Eb')]
+             ('http://x.y/?q=1#f', 'http://x.y/?q=1#f'), ('/a&amp;b', '/a&amp;b'), ('#frag', '#frag'), ('<a\\>b>', 'a%3Eb'),
+             # numeric references at the boundaries of the valid range inside a destination (U+FFFD percent-encoded)
+             ('/u&#xDFFF;', '/u%EF%BF%BD'), ('/u&#xD800;', '/u%EF%BF%BD'), ('/u&#xD7FF;', '/u%ED%9F%BF'), ('/u&#xE000;', '/u%EE%80%80'),
+             ('/u&#0;', '/u%EF%BF%BD'), ('/u&#1114112;', '/u%EF%BF%BD'), ('/u&#x10FFFF;', '/u%F4%8F%BF%BF')]
     titles = [('', None), (' "T"', 'T'), (" 'T'", 'T'), (' (T)', 'T'), (' "a \\" b"', 'a " b'), ('\n"T"', 'T'), (' "T"  ', 'T'), (' "x &amp; \'y\'"', "x & 'y'"),
               ("  '(p)'", '(p)'), (' ""', None), (' (f\\(x\\))', 'f(x)'), (' "\\"q\\""', '"q"')]
     for (tm, th, tp), (dm, dh), (ttm, tt), lead, bang in itertools.product(texts, dests, titles, ('', ' '), ('', '!')):
